@@ -46,3 +46,16 @@ theorem flat_div (a b n : ℕ) (hb : b < n) : (a * n + b) / n = a := by
 
 theorem flat_mod (a b n : ℕ) (hb : b < n) : (a * n + b) % n = b := by
   rw [Nat.add_comm, Nat.add_mul_mod_self_right, Nat.mod_eq_of_lt hb]
+
+/-- The arithmetic hints handed to the SMT solvers for grouped tensors (contracts/group.py `hints`):
+    with per-axis count `n = g * ag` and `numel = dk * n`. -/
+theorem group_hints (dk n g ag : ℕ) (hg : 0 < g) (hdk : 0 < dk) (hn : n = g * ag) :
+    (dk * n) = dk * g * ag ∧ (dk * n) % g = 0 ∧ (dk * n) / g = dk * ag ∧ n % g = 0 ∧ n / g = ag ∧ (dk * n) / dk = n := by
+  subst hn
+  refine ⟨by ring, ?_, ?_, ?_, ?_, ?_⟩
+  · exact Nat.mod_eq_zero_of_dvd ⟨dk * ag, by ring⟩
+  · have : dk * (g * ag) = g * (dk * ag) := by ring
+    rw [this, Nat.mul_div_cancel_left _ hg]
+  · exact Nat.mul_mod_right g ag
+  · exact Nat.mul_div_cancel_left ag hg
+  · exact Nat.mul_div_cancel_left (g * ag) hdk
